@@ -39,6 +39,7 @@ type keyLoop struct {
 	elem   ssa.Value // the string element
 	app    *ssa.Call // append(…, elem...)
 	asKey  bool      // the accumulator is converted to string and used as a map key / stored
+	uses   int       // number of places where it is used as a key (call sites, for a helper that returns it)
 	source ssa.Value
 }
 
@@ -90,6 +91,37 @@ func findKeyLoops(c *Ctx) []keyLoop {
 									}
 								}
 							}
+						}
+						// the same through a helper: the accumulator is what the function returns, and a caller uses the
+						// result as a map key
+						returned := false
+						for _, ref := range *acc.Referrers() {
+							if _, ok := ref.(*ssa.Return); ok {
+								returned = true
+							}
+						}
+						if returned && !kl.asKey {
+							for _, site := range c.callSitesOf(func(f *ssa.Function) bool {
+								return f == fn || (f.Origin() != nil && f.Origin() == fn.Origin())
+							}) {
+								rv := site.Value()
+								if rv == nil || rv.Referrers() == nil {
+									continue
+								}
+								for _, ref := range *rv.Referrers() {
+									if cv, ok := ref.(*ssa.Convert); ok && isStringType(cv.Type()) {
+										for _, r2 := range *cv.Referrers() {
+											switch r2.(type) {
+											case *ssa.Lookup, *ssa.MapUpdate:
+												kl.asKey = true
+												kl.uses++
+											}
+										}
+									}
+								}
+							}
+						} else if kl.asKey {
+							kl.uses = 1
 						}
 						out = append(out, kl)
 					}
@@ -226,13 +258,13 @@ func ruleC06R1(c *Ctx) {
 		if !kl.asKey {
 			continue
 		}
-		nKey++
+		nKey += kl.uses
 		ok, why := lengthPrefixed(kl)
 		c.check(ok, "C06.R1", kl.fn, "map key built from the elements of "+canonOf(kl.source), kl.app.Pos(),
 			"injective encoding of the tuple: "+why,
 			"the merged key is not an injective encoding of the key tuple: "+why+" — two different key-field tuples share one pipeline / counter set")
 	}
-	c.floor("C06.R1", "loops building a map key from a []string", nKey, 2)
+	c.floor("C06.R1", "uses of a map key built by a loop over a []string", nKey, 2)
 	c.count("C06.R1:accumulating loops over []string", len(loops))
 }
 
@@ -268,7 +300,7 @@ func ruleC06R2(c *Ctx) {
 		fmt.Sprintf("the id is built by %s, which is not injective when a value contains the separator: ('a,b','c') and ('a','b,c') share one queue directory and recovery splits the id into the wrong values", enc))
 	// decoder in NewOrchestrator
 	decFound := ""
-	for _, site := range callsIn(no) {
+	for _, site := range c.callsInR(no) {
 		f := site.Common().StaticCallee()
 		if f == nil {
 			continue
